@@ -231,9 +231,28 @@ pub fn run(tier: Tier) -> i32 {
         }
     }
     let deadline = Deadline::after(Duration::from_secs(tier.pick(50, 3000)));
-    let acc = par_for(specs.len(), 8, &deadline, |i, acc| check_one(&specs[i], acc));
+    let mut acc = par_for(specs.len(), 8, &deadline, |i, acc| check_one(&specs[i], acc));
+    // cursor histories on V1 files: every operation sequence up to a fixed length (no
+    // deduplication) on a few multi-block files, each result compared with the sorted content — a
+    // cursor that was positioned elsewhere before a seek must answer as on a V2 file
+    let mut hist_specs: Vec<FileSpec> = crate::files::deep_specs(tier).into_iter().filter(|s| s.cfg.index_levels == 0).take(2).collect();
+    hist_specs.push(FileSpec::new(FileCfg::layout(Some(1024), Some(2), 0), EntrySpec::Uniform { n: 9, klen: 3, vlen: 400, wide: false }));
+    hist_specs.push(FileSpec::new(FileCfg::layout(Some(1024), None, 0).with_codec(5, 0), EntrySpec::Uniform { n: 7, klen: 2, vlen: 500, wide: false }));
+    let depth = tier.pick(4, 5);
+    let h = par_for(hist_specs.len(), 1, &deadline, |i, acc| {
+        let spec = &hist_specs[i];
+        let Ok((entries, bytes)) = build_file(spec) else { return acc.count("prerequisite_failed_v2_twin_not_writable_(C01)", 1) };
+        let Ok(v1) = vlib::fmt::retrail_as_v1(&bytes) else { return acc.count("prerequisite_failed_v2_twin_not_writable_(C01)", 1) };
+        let name = format!("v1-history-file-{i}");
+        let (histories, ops) = crate::cursor_bfs::enumerate_histories(&name, spec, &entries, &v1, depth, "C10", acc);
+        acc.evaluations += histories;
+        acc.transitions += ops;
+        acc.states += 1;
+        acc.count("v1_cursor_histories", histories);
+    });
+    acc.merge(h);
     rep.acc = acc;
-    rep.set("rule", json!("E2: every index_levels = 0 file of the population (all block sizes x intervals; every codec; universe subsets; deep and dense) is re-trailed by the harness's own encoder into V1 (21 bytes: offset u64-LE, codec u8, count u64-LE, magic 0x76324D4C); Reader::new must report FormatV1, the stored count and codec, and every query of the batteries of C01 (6 scans), C02 (GE/LE/EQ x probes x fresh/reset), C04 (all bound pairs x 2 directions) and C05 (prefixes x 2 directions) must return result-for-result what the V2 twin returns; states = files, transitions = queries compared; for small files the twins are also compared with perturbed stored counts (0, 1, 2^32-1, 2^32, 2^32+300, u64::MAX); distinct_nontrivial = non-empty files"));
+    rep.set("rule", json!("E2: every index_levels = 0 file of the population (all block sizes x intervals; every codec; universe subsets; deep and dense) is re-trailed by the harness's own encoder into V1 (21 bytes: offset u64-LE, codec u8, count u64-LE, magic 0x76324D4C); Reader::new must report FormatV1, the stored count and codec, and every query of the batteries of C01 (6 scans), C02 (GE/LE/EQ x probes x fresh/reset), C04 (all bound pairs x 2 directions) and C05 (prefixes x 2 directions) must return result-for-result what the V2 twin returns; on a few multi-block V1 files every cursor operation sequence up to a fixed length (first/last/next/prev/reset and seeks, no deduplication) is run and each result compared with the sorted content, so that seeks on a cursor positioned elsewhere are covered; states = files, transitions = queries compared; for small files the twins are also compared with perturbed stored counts (0, 1, 2^32-1, 2^32, 2^32+300, u64::MAX); distinct_nontrivial = non-empty files"));
     rep.set("bound", json!({"files": specs.len(), "shape_sequence_max_len": tier.pick(3, 4), "universe_max_subset_size": tier.pick(2, 3)}));
     rep.assume("no V1 writer exists in the tree: V1 files are produced by replacing the V2 trailer of an index_levels = 0 file, whose block area has the same layout in both versions");
     rep.finish()
@@ -241,6 +260,21 @@ pub fn run(tier: Tier) -> i32 {
 
 pub fn replay(case: &serde_json::Value) -> i32 {
     let spec: FileSpec = serde_json::from_value(case["file"].clone()).expect("bad replay: file");
+    if case["kind"] == "cursor_history" {
+        let ops: Vec<crate::cursor_bfs::Op> = serde_json::from_value(case["ops"].clone()).expect("bad replay: ops");
+        return match crate::cursor_bfs::replay_history(&spec, &ops, "C10") {
+            Ok(log) => {
+                print!("{log}");
+                println!("replay: the history on the V1 file matches the sorted content");
+                0
+            }
+            Err(e) => {
+                println!("{e}");
+                println!("VIOLATION property=C10 replay=(replayed)");
+                1
+            }
+        };
+    }
     let q: Option<Query> = serde_json::from_value(case["query"].clone()).ok().flatten();
     match check_spec(&spec, q.as_ref()) {
         Ok((y, n)) => {
